@@ -75,4 +75,4 @@ def shrink_candidates(c):
         lines = bytes(last["diff"]).split(b"\n")
         for i in range(len(lines)):
             t = lines[:i] + lines[i + 1:]
-            yield dict(c, steps=st[:-1] + [dict(last, diff=list(b"\n".join(t)), expect_ok=False if not last["expect_ok"] else last["expect_ok"])])
+            yield dict(c, steps=st[:-1] + [dict(last, diff=list(b"\n".join(t)), expect_ok=False)])
